@@ -118,7 +118,7 @@ func (p *Prog) dynamicTargets(v ssa.Value, in *ssa.Function, depth int) []*ssa.F
 		return []*ssa.Function{p.unthunk(t)}
 	case *ssa.MakeClosure:
 		if f, ok := t.Fn.(*ssa.Function); ok {
-			return []*ssa.Function{f}
+			return []*ssa.Function{p.unthunk(f)} // a method value x.m is a closure over the bound-method wrapper
 		}
 	case *ssa.ChangeType:
 		return p.dynamicTargets(t.X, in, depth+1)
